@@ -462,7 +462,8 @@ func Run(r *ev.Run, tier string) (evals, nontrivial int64) {
 	e2, n2 := aggregateProposals(r, h, max)
 	e3, n3 := params(r, tier)
 	e4, n4 := genesis(r)
-	return evals + e2 + e3 + e4, nontrivial + n2 + n3 + n4
+	e5, n5 := govOutcomes(r)
+	return evals + e2 + e3 + e4 + e5, nontrivial + n2 + n3 + n4 + n5
 }
 
 func firstLine(p interface{}) string {
